@@ -164,8 +164,11 @@ def run_property(pid, tier='quick', seed=0, only_rule=None, replay=None):
         else:
             new.append(v)
 
+    # runs against a scratch copy (self-tests) must not overwrite the evidence of /repo
+    scratch = os.path.realpath(export.REPO) != '/repo'
+    ev_dir = os.path.join(VERIF, '.cache', 'scratch-evidence') if scratch else os.path.join(VERIF, 'evidence')
     os.makedirs(os.path.join(VERIF, 'replay'), exist_ok=True)
-    os.makedirs(os.path.join(VERIF, 'evidence'), exist_ok=True)
+    os.makedirs(ev_dir, exist_ok=True)
     for v in known_hit:
         print('KNOWN-FINDING: property=%s %s %s' % (pid, v['key'], known_keys[v['key']].get('what_fails', v['msg'])))
     for v in new:
@@ -226,7 +229,7 @@ def run_property(pid, tier='quick', seed=0, only_rule=None, replay=None):
         'wall_s': round(time.time() - t0, 3),
         'violations': len(new),
     }
-    with open(os.path.join(VERIF, 'evidence', pid + '.json'), 'w') as f:
+    with open(os.path.join(ev_dir, pid + '.json'), 'w') as f:
         json.dump(ev, f, indent=1)
     status = 'FAIL' if new else 'ok'
     print('%s %s tier=%s rules=%d obligations=%d discharged=%d known=%d new=%d %.1fs' % (
